@@ -4,7 +4,7 @@
 # package tests pass with the change. Then stores patch, demo and meta under /verif/seeded/<id>/.
 set -u
 id=$1; wt=$2; pkg=$3; demo=$4; pat=$5; shift 5
-export GOFLAGS=-mod=mod GOPROXY=off
+export GOFLAGS="${SEED_GOFLAGS:--mod=mod}" GOPROXY=off
 cd $wt || exit 2
 git checkout -q -- . ; git apply demo/patch.diff || { echo "patch does not apply"; exit 2; }
 cp demo/$demo go/$pkg/zz_demo_verif_test.go
